@@ -6,7 +6,7 @@
    (resp. 9x9) matrices. *)
 From Coq Require Import List ZArith Bool Ring.
 Import ListNotations.
-From PP Require Import Model.C40 Proofs.C40.
+From PP Require Import Model.C40 Model.C40_heap Proofs.C40 Proofs.C40_hom Proofs.C40_heap.
 
 
 (* SYMMETRY + LAYOUT of SecondOrderTensor.  Whenever the constructor returns (any arrays,
@@ -145,6 +145,91 @@ Theorem C40_other_fields_copy_restrict :
 Proof. exact other_fields_l. Qed.
 Print Assumptions C40_other_fields_copy_restrict.
 
+From Coq Require Import QArith Qreals Reals.
+
+(* INSTANCE INDEPENDENCE.  A map h between two number records that commutes with 0, +, *, -
+   and the sign test commutes with every function of the model: constructor (tests
+   included), rotate, copy, restriction, whole histories, the fourth-order constructor,
+   its copy and restriction. *)
+Theorem C40_instance_independence :
+  forall (A B : Type) (oa : numops A) (ob : numops B) (h : A -> B),
+    h (zero oa) = zero ob ->
+    (forall x y, h (add oa x y) = add ob (h x) (h y)) ->
+    (forall x y, h (mul oa x y) = mul ob (h x) (h y)) ->
+    (forall x y, h (sub oa x y) = sub ob (h x) (h y)) ->
+    (forall x, isneg ob (h x) = isneg oa x) ->
+    (forall kxx kyy kzz kxy kxz kyz,
+       second_order ob (map h kxx) (omap h kyy) (omap h kzz) (omap h kxy) (omap h kxz) (omap h kyz)
+       = rmap (map (hm h)) (second_order oa kxx kyy kzz kxy kxz kyz)) /\
+    (forall R t, rotate ob (hm h R) (map (hm h) t) = map (hm h) (rotate oa R t)) /\
+    (forall t, copy2 ob (map (hm h) t) = rmap (map (hm h)) (copy2 oa t)) /\
+    (forall t cells, restrict2 ob (map (hm h) t) cells = rmap (map (hm h)) (restrict2 oa t cells)) /\
+    (forall ops_ t, run2 ob (map (hm h) t) (map (hop h) ops_)
+                    = map (rmap (map (hm h))) (run2 oa t ops_)) /\
+    (forall mu la, fourth_order ob (map h mu) (map h la) = rmap (h4 h) (fourth_order oa mu la)) /\
+    (forall t, copy4 ob (h4 h t) = rmap (h4 h) (copy4 oa t)) /\
+    (forall t cells, restrict4 ob (h4 h t) cells = rmap (h4 h) (restrict4 oa t cells)).
+Proof. exact @hom_all. Qed.
+Print Assumptions C40_instance_independence.
+
+(* ... in particular the rational instance [QOps] executed by the execution correspondence
+   is the real-number instance [ROpsT] (sign test by Rlt_dec) on Q2R-embedded data, so the
+   ring theorems above (at T = R) speak about what is executed. *)
+Theorem C40_transfer_Q_R :
+  (forall kxx kyy kzz kxy kxz kyz,
+     second_order ROpsT (map Q2R kxx) (omap Q2R kyy) (omap Q2R kzz) (omap Q2R kxy)
+                  (omap Q2R kxz) (omap Q2R kyz)
+     = rmap (map (hm Q2R)) (second_order QOps kxx kyy kzz kxy kxz kyz)) /\
+  (forall ops_ t, run2 ROpsT (map (hm Q2R) t) (map (hop Q2R) ops_)
+                  = map (rmap (map (hm Q2R))) (run2 QOps t ops_)) /\
+  (forall mu la, fourth_order ROpsT (map Q2R mu) (map Q2R la)
+                 = rmap (h4 Q2R) (fourth_order QOps mu la)) /\
+  (forall t, copy4 ROpsT (h4 Q2R t) = rmap (h4 Q2R) (copy4 QOps t)) /\
+  (forall t cells, restrict4 ROpsT (h4 Q2R t) cells = rmap (h4 Q2R) (restrict4 QOps t cells)).
+Proof. exact transfer_Q_R. Qed.
+Print Assumptions C40_transfer_Q_R.
+
+(* ARGUMENT CHECKS of FourthOrderTensor.__init__: it succeeds exactly for two 1-D numpy
+   arrays of equal size (and then is the tensor of C40_fourth_order_symmetric); every other
+   combination (non-arrays, 0-d / 2-d arrays, different sizes) raises ValueError. *)
+Theorem C40_fourth_order_argument_checks :
+  forall (T : Type) (ops : numops T) (mu la : arg T),
+    (forall t, fourth_order_checked ops mu la = Ok t ->
+       exists dm dl, mu = Arr 1%nat dm /\ la = Arr 1%nat dl /\ length dm = length dl /\
+                     fourth_order ops dm dl = Ok t) /\
+    (forall e, fourth_order_checked ops mu la = Err e ->
+       e = ValueErr /\
+       (mu = NotArray \/ la = NotArray \/ (exists n d, mu = Arr n d /\ n <> 1%nat) \/
+        (exists n d, la = Arr n d /\ n <> 1%nat) \/
+        (exists dm dl, mu = Arr 1%nat dm /\ la = Arr 1%nat dl /\ length dm <> length dl))).
+Proof. exact @fourth_order_checked_spec. Qed.
+Print Assumptions C40_fourth_order_argument_checks.
+
+(* COPY INDEPENDENCE on the allocation model (Model.C40_heap: which statements of tensor.py
+   allocate an array and which bind an existing one).  For any tensor object t whose arrays
+   exist: copy() and restrict_to_cells() return objects holding pairwise distinct, freshly
+   allocated arrays, none of them an array of t — an in-place write to any array of the
+   copy/restriction leaves every array of t unchanged and vice versa; rotate rebinds
+   `values` to a new array.  (That the implementation allocates where the model says is
+   checked on every run: np.shares_memory matrix vs the model's ids.) *)
+Theorem C40_copy_independent :
+  forall (s : nat) (t : obj), older s t ->
+    (let (c, s') := copy4h s t in
+       NoDup (ids c) /\ disjoint t c /\ disjoint c t /\
+       forall {V} (hp : nat -> V) v,
+         (forall i j, In i (ids c) -> In j (ids t) -> write hp i v j = hp j) /\
+         (forall i j, In i (ids t) -> In j (ids c) -> write hp i v j = hp j)) /\
+    (let (r, s') := restrict4h s t in
+       NoDup (ids r) /\ disjoint t r /\ disjoint r t /\
+       forall {V} (hp : nat -> V) v,
+         (forall i j, In i (ids r) -> In j (ids t) -> write hp i v j = hp j) /\
+         (forall i j, In i (ids t) -> In j (ids r) -> write hp i v j = hp j)) /\
+    (let (c, s') := copy2h s t in disjoint t c /\ disjoint c t) /\
+    (let (r, s') := restrict2h s t in disjoint t r /\ disjoint r t) /\
+    (let (t', s') := rotateh s t in ~ In (o_values t') (ids t) /\ o_fields t' = o_fields t).
+Proof. exact independence_lemma. Qed.
+Print Assumptions C40_copy_independent.
+
 (* Non-vacuity over the ring of integers: a constructed anisotropic tensor, an orthogonal
    matrix (quarter turn about z), its rotation, a restriction with a negative index. *)
 Example C40_nonvacuous :
@@ -161,4 +246,29 @@ Proof.
   cbv zeta. eexists. split; [vm_compute; reflexivity|].
   split; [reflexivity|]. split; [vm_compute; reflexivity|]. split; [vm_compute; reflexivity|].
   split; [vm_compute; reflexivity|]. exact Zth.
+Qed.
+
+Example C40_nonvacuous2 :
+  fourth_order_checked QOps (Arr 1%nat [1 # 2; 3 # 1]%Q) (Arr 1%nat [2 # 1; 0 # 1]%Q) =
+    fourth_order QOps [1 # 2; 3 # 1]%Q [2 # 1; 0 # 1]%Q /\
+  (exists t, fourth_order QOps [1 # 2; 3 # 1]%Q [2 # 1; 0 # 1]%Q = Ok t) /\
+  fourth_order_checked QOps (Arr 2%nat [1 # 2; 3 # 1]%Q) (Arr 1%nat [2 # 1; 0 # 1]%Q) = Err ValueErr /\
+  fourth_order_checked QOps NotArray (Arr 1%nat [2 # 1]%Q) = Err ValueErr /\
+  (exists t, second_order QOps [2 # 1]%Q None None (Some [1 # 2]%Q) None None = Ok t /\
+             hm Q2R (nth 0 t ((0,0,0),(0,0,0),(0,0,0))%Q) =
+             ((Q2R (2 # 1), Q2R (1 # 2), Q2R 0), (Q2R (1 # 2), Q2R (2 # 1), Q2R 0),
+              (Q2R 0, Q2R 0, Q2R (2 # 1)))).
+Proof.
+  split; [reflexivity|]. split; [vm_compute; eexists; reflexivity|].
+  split; [reflexivity|]. split; [reflexivity|].
+  eexists. split; [vm_compute; reflexivity|]. reflexivity.
+Qed.
+
+Example C40_nonvacuous3 :
+  let (t, s1) := construct4 3 [0; 1; 2]%nat in
+  older s1 t /\ ids t = [3; 0; 1; 2]%nat /\
+  fst (copy4h s1 t) = {| o_values := 8; o_fields := [4; 5; 6] |}%nat /\
+  agree_alias4 1 (share_matrix [0; 1; 2; 3; 0; 1; 2; 8; 4; 5; 6; 14; 10; 11; 12; 20; 15; 16; 17]%nat) = true.
+Proof.
+  cbn. repeat split; try reflexivity. unfold older. repeat constructor.
 Qed.
